@@ -955,6 +955,9 @@ impl Monitor for PairMonitor {
         for i in 0..tier.pick(60, 3000) {
             v.push(format!("alt:{i}"));
         }
+        for i in 0..tier.pick(40, 1500) {
+            v.push(format!("subont:{i}"));
+        }
         v.extend(catalogue_labels());
         if self.prop == "C11" {
             for i in 0..12 {
@@ -1003,6 +1006,7 @@ impl Monitor for PairMonitor {
         };
         let mut v: Vec<String> = v.into_iter().filter(|s| !s.contains('|')).map(str::to_string).collect();
         v.push("alternating_ontologies".to_string());
+        v.push("path/sub_ontology".to_string());
         if self.prop != "C12" {
             v.push("more_than_65535_terms".to_string());
         }
@@ -1143,6 +1147,78 @@ impl Monitor for PairMonitor {
             out.bucket("chain_longer_than_256_links");
             out.case = case_json(&sc);
             PairCase { sc, ont, obs, model, subset: Some(subset.into_iter().collect()) }
+        } else if label.starts_with("subont") {
+            // the pair queries on a sub-ontology (one more way an ontology comes into being): judged against
+            // the sub-ontology's own direct parents
+            let defaults = rng.chance(1, 2);
+            let cfg = crate::gen::GenCfg {
+                n_min: 5,
+                n_max: 30,
+                defaults,
+                max_paths: Some(300),
+                ..crate::gen::GenCfg::default()
+            };
+            let facts = crate::gen::gen_facts(&mut rng, &cfg).builder_view();
+            let m0 = Model::new(&facts, defaults);
+            let cands: Vec<u32> = m0.ids.iter().copied().filter(|t| m0.desc[t].len() >= 2).collect();
+            if cands.is_empty() {
+                out.bucket("sub_source_without_edges");
+                return out;
+            }
+            let root = *rng.pick(&cands);
+            let below: Vec<u32> = m0.desc[&root].iter().copied().collect();
+            let leaves: Vec<u32> = (0..rng.urange(1, 5)).map(|_| *rng.pick(&below)).collect();
+            let src = match crate::drive::via_builder(&facts, None, defaults) {
+                Ok(o) => o,
+                Err(e) => {
+                    out.violate(self.prop, "construct_failed/sub_source", format!("{e}"));
+                    return out;
+                }
+            };
+            let sub = crate::observe::guard(|| {
+                let r = src.hpo(root).expect("root");
+                let ls: Vec<HpoTerm> = leaves.iter().map(|l| src.hpo(*l).expect("leaf")).collect();
+                src.sub_ontology(r, ls).map_err(|e| e.to_string())
+            });
+            let ont = match sub {
+                Ok(Ok(o)) => o,
+                Ok(Err(e)) => {
+                    out.violate(self.prop, "construct_failed/sub_ontology", format!("sub_ontology({root}, {leaves:?}) = Err({e})"));
+                    return out;
+                }
+                Err(p) => {
+                    out.violate(self.prop, "construct_panic/sub_ontology", format!("{} at {}", p.message, p.location));
+                    return out;
+                }
+            };
+            let obs = crate::observe::walk(&ont, &[], &mut out.events);
+            let mut own = crate::facts::FactSet::default();
+            for (id, t) in &obs.terms {
+                own.terms.push(crate::facts::TermFact { id: *id, name: t.name.clone(), obsolete: false, replaced_by: None });
+                for p in &t.parents {
+                    if obs.terms.contains_key(p) {
+                        own.edges.push((*id, *p));
+                    }
+                }
+            }
+            for k in 0..3 {
+                for (rid, r) in &obs.recs[k] {
+                    own.recs[k].push(crate::facts::RecFact { id: *rid, name: r.name.clone(), terms: r.terms.clone() });
+                }
+            }
+            let model = Model::new(&own, false);
+            out.bucket("path/sub_ontology");
+            let sc = StateCase {
+                view: own.clone(),
+                facts: own,
+                path: PathKind::BuilderMinimal,
+                order: crate::drive::OrderMode::AsGiven,
+                shape: format!("sub_ontology({root}, {leaves:?})"),
+                id_mode: "source".into(),
+            };
+            out.case = Json::obj().set("path", Json::s("sub_ontology")).set("root", Json::u(u64::from(root))).set("leaves", Json::arr_u32(&leaves)).set("source_facts", facts.to_json());
+            let ids: Vec<u32> = obs.terms.keys().copied().collect();
+            PairCase { sc, ont, obs, model, subset: Some(ids) }
         } else if label.starts_with("manyterms") {
             // more terms than a 16-bit index can address; the terms that are queried are added LAST
             let mut f = crate::facts::FactSet::default();
